@@ -106,13 +106,13 @@ type c07Exec struct {
 }
 
 type c07State struct {
-	log     *gx.Log
-	execs   []*c07Exec
-	uerr    []error
-	upan    []interface{}
-	gp      *engine.GenginePool
+	log        *gx.Log
+	execs      []*c07Exec
+	uerr       []error
+	upan       []interface{}
+	gp         *engine.GenginePool
 	insideDone bool
-	cfg     c07Cfg
+	cfg        c07Cfg
 }
 
 var c07Active *c07State
